@@ -152,6 +152,12 @@ func (ph *peerHandler) startIfDisconnected() {
 	ph.mu.Lock()
 	defer ph.mu.Unlock()
 
+	if ph.ctx.Err() != nil {
+		// The handler has been stopped. This call was started by an event
+		// that raced with stopping the service or removing the peer.
+		return
+	}
+
 	if ph.reconnectTimer == nil && ph.host.Network().Connectedness(ph.peer) != network.Connected {
 		logger.Debugw("disconnected from peer", "peer", ph.peer)
 		// Always start with a short timeout so we can stagger things a bit.
